@@ -1,5 +1,5 @@
 """compare the driver commands of Model/Logic.lean with tntorch.  Run:
-   cd /verif/harness && /venv/bin/python -W ignore /root/scratch/lean_I/scratch_tests/test_logic.py [n]"""
+   cd /verif/harness && /venv/bin/python -W ignore batteries/c15_logic.py [n] [seed]"""
 import subprocess, random, sys, time, itertools
 import numpy as np, torch
 sys.path.insert(0, __import__("os").path.dirname(__import__("os").path.dirname(__import__("os").path.abspath(__file__))))
